@@ -647,7 +647,8 @@ OBLIGATIONS = [
        outside="row index: every integer; column index: -8..8; one operation on a freshly created table; "
                "negative in-range indices may be refused or address position index + count"),
     Ob("two_operations", _ob_two_ops, timeout=1500,
-       partition_by_tier={"quick": [(op, sc) for op in ("append_column", "append_rows", "set_units") for sc in (0, 2)],
+       partition_by_tier={"quick": [(op, 0) for op in ("append_column", "append_rows", "set_units")] +
+                          [("append_column", 1), ("set_units", 1)],
                           "thorough": [(op, sc) for op in OPS[:9] for sc in range(3)]},
        functions=_FUNCS, replay=_replay_two,
        outside="histories of two operations followed by reads: the first one legal with fixed addressing (last "
